@@ -1,4 +1,5 @@
 import PgVerif.Model.LR
+import PgVerif.Model.Decode
 import PgVerif.Model.GLR
 import PgVerif.Model.Forest
 import PgVerif.Spec.SPPF
@@ -63,12 +64,6 @@ def rdAction : Rd Action := do
   | 1 => pure (.reduce a)
   | _ => pure .accept
 
-structure StateData where
-  sym : Sym
-  cells : List (Nat × List Action)
-  finish : List Bool
-  gotoL : List (Nat × Nat)
-
 def rdTable : Rd Table := do
   let states ← rdList (do
     let sym ← decSym <$> rd
@@ -81,28 +76,17 @@ def rdTable : Rd Table := do
     pure ({ sym := sym, cells := cells.map (fun c => (c.1, c.2.2)),
             finish := cells.map (fun c => c.2.1), gotoL := gotos } : StateData))
   let terms ← rdList (do let p ← rd; let f ← rd; pure (p, f != 0))
-  let sa := states.toArray
-  let ta := terms.toArray
-  pure {
-    n := states.length
-    sym := fun s => match sa[s]? with | some d => d.sym | none => .nt 0
-    cells := fun s => match sa[s]? with | some d => d.cells | none => []
-    finish := fun s => match sa[s]? with | some d => d.finish | none => []
-    gotoL := fun s => match sa[s]? with | some d => d.gotoL | none => []
-    prior := fun t => match ta[t]? with | some d => d.1 | none => 0
-    prefer := fun t => match ta[t]? with | some d => d.2 | none => false }
+  -- `Table.ofStates` (Model/Decode.lean): empty beyond its states, proved there
+  pure (Table.ofStates states.toArray terms.toArray)
 
 def rdInput : Rd Input := do
   let len ← rd
   let skips ← rdList rd
   let ms ← rdList (do let t ← rd; let p ← rd; let l ← rd; pure (t, p, l))
-  let sk := skips.toArray
-  -- only in-range matches of real terminals are kept: `InputOK` by construction
-  let ms := ms.filter (fun m => m.1 != STOP && m.2.1 + m.2.2 ≤ len)
-  pure {
-    len := len
-    skip := fun p => match sk[p]? with | some q => (if q ≤ len then q else len) | none => min p len
-    mlen := fun t p => (ms.find? (fun m => m.1 == t && m.2.1 == p)).map (fun m => m.2.2) }
+  -- `Input.ofTables` (Model/Decode.lean): `InputOK` and `InputMono` are proved for every decoded input
+  -- whose skip table has one entry per position
+  if skips.length != len + 1 then failure
+  pure (Input.ofTables len skips.toArray ms)
 
 def rdForest : Rd Forest :=
   rdList (do
